@@ -652,6 +652,12 @@ class C10Executor(Executor):
                     out.extend(self.call(s3, f, args, kwargs, n))
         return out
 
+    def apply_contract(self, st, c, args, kwargs, node, cl_frame=None):
+        covered = [n for (n, _m) in c.params if n not in getattr(c, "optional_extra", ())]
+        if len(args) > len(covered) or any(k not in covered for k in kwargs):
+            self.unsupported(node, f"call of {c.target.split('::')[-1]} passes an argument its contract does not speak about")
+        return super().apply_contract(st, c, args, kwargs, node, cl_frame=cl_frame)
+
     # -- NamedTuple classes of the module
     def _namedtuple_fields(self, name):
         cls = self.module.classes.get(name)
@@ -2086,6 +2092,9 @@ def install_members(reg):
     reg.method_models[("SevenZipFile", "list")] = szf_list
 
     def szf_extractall(ex, st, o, a, k, n):
+        if len(a) + len(k) != 1 or (k and "path" not in k):
+            # the model is extractall(path) = every member written below path; any further argument changes what is written
+            ex.unsupported(n, "SevenZipFile.extractall with arguments other than the target path")
         ex.exc_any(st.fork(), "SevenZipFile.extractall()")
         st.ghost["extractall"] = events(st, "extractall") + ((k.get("path", a[0] if a else None)),)
         return [(st, NONE)]
@@ -3387,8 +3396,34 @@ FUNCTIONAL = ("._read_bytes", "._read_uint8", "._read_uint32", "._read_uint64", 
               "._decompress_folder", "._parse_pack_info", "._seek_back_one")
 
 
+def add_optional_params(c):
+    """trailing parameters of the REAL signature that the contract does not mention and whose default is a literal: the contract
+    speaks about the calls that omit them, so the body is verified with the default value; a call that passes one is outside the
+    contract (C10Executor.apply_contract: unknown).  Anything else (no literal default, not trailing) stays unbound = out of subset."""
+    c.optional_extra = ()
+    try:
+        rel, qual = c.target.split("::")
+        fnode = loader.module(rel).functions.get(qual)
+        if fnode is None or getattr(c, "closure", None):
+            return
+        a = fnode.args
+        sig = [x.arg for x in a.posonlyargs + a.args]
+        have = [n for (n, _m) in c.params]
+        if sig[:len(have)] != have:
+            return
+        dflt = dict(zip(sig[len(sig) - len(a.defaults):], a.defaults))
+        tail = [(x.arg, dflt.get(x.arg)) for x in (a.posonlyargs + a.args)[len(have):]] + list(zip([x.arg for x in a.kwonlyargs], a.kw_defaults))
+        if not tail or not all(isinstance(d, ast.Constant) and isinstance(d.value, (type(None), bool, int, str)) for _n, d in tail):
+            return
+        c.params = list(c.params) + [(n, p_const(d.value)) for n, d in tail]
+        c.optional_extra = tuple(n for n, _d in tail)
+    except Exception:  # noqa  never let the signature scan break the check: the function is then verified as before
+        c.optional_extra = ()
+
+
 def guard_contract(c):
     c.functional = c.target.endswith(FUNCTIONAL)
+    add_optional_params(c)
     orig_hyps = c.hyps
 
     def hyps(cx):
